@@ -188,6 +188,15 @@ func runC05(args []string) error {
 			return err
 		}
 	}
+	// a coding coefficient 0xffff (Const(152)^75): 160 slices, 80 recovery blocks, once with slices shorter
+	// than a SIMD block (scalar kernels) and once with one SIMD block plus a scalar tail; every word judged
+	for _, s := range []int{4, 36} {
+		d := make([]byte, 160*s)
+		rng.Read(d)
+		if err := createAndObserve(lg, dir, []string{"coef.bin"}, [][]byte{d}, s, 80, 1+s%3, fmt.Sprintf("coefficient 0xffff, S=%d", s), nil, 1<<30); err != nil {
+			return err
+		}
+	}
 	// many slices (tens of thousands): one per run in the thorough tier, ~9000 in quick
 	{
 		s := 4
